@@ -1752,7 +1752,6 @@ class Data(BaseCartesianData):
         # later we will need to pad out the result of compute_statistic.
         subarray_slices = None
 
-        chunk_view = None
         if subset_state:
             if isinstance(subset_state, SliceSubsetState) and view is None:
                 mask = None
@@ -1825,8 +1824,6 @@ class Data(BaseCartesianData):
                                 mask_idim += 1
                             else:
                                 new_view.append(view[idim])
-                        # This is the chunk view, which we'll need later
-                        chunk_view = view
                         view = tuple(new_view)
                     else:  # pragma: nocover
                         # This should probably never happen, but just in case!
@@ -1835,8 +1832,14 @@ class Data(BaseCartesianData):
                     if use_subarray_slices:
                         # Extract the mask in the subarray region. The view will
                         # then also take into account the subarray slices in this
-                        # case.
+                        # case. We keep track of the shape of the full mask
+                        # since we need it to pad the result.
+                        mask_shape = mask.shape
                         mask = mask[subarray_slices]
+                    else:
+                        # The data and mask cover the whole view, so the
+                        # result does not need to be padded
+                        subarray_slices = None
 
                     data = self.get_data(cid, view)
 
@@ -1890,15 +1893,14 @@ class Data(BaseCartesianData):
             # only the result within the view is returned.
             if not isinstance(axis, tuple):
                 axis = (axis,)
-            result_slices = tuple([subarray_slices[idim] for idim in range(self.ndim) if idim not in axis])
 
-            if chunk_view is None:
-                full_shape = [self.shape[idim] for idim in range(self.ndim) if idim not in axis]
-            else:
-                chunk_shape = subset_state.to_mask(self, chunk_view).shape
-                full_shape = [chunk_shape[idim] for idim in range(self.ndim) if idim not in axis]
+            # Note that the mask (and hence subarray_slices) can have fewer
+            # dimensions than the data if the view contains integers.
+            mask_ndim = len(mask_shape)
+            result_slices = tuple([subarray_slices[idim] for idim in range(mask_ndim) if idim not in axis])
+            full_shape = [mask_shape[idim] for idim in range(mask_ndim) if idim not in axis]
 
-            full_result = np.zeros(full_shape) * np.nan
+            full_result = np.full(full_shape, np.nan)
             full_result[result_slices] = result
             return full_result
 
